@@ -665,7 +665,16 @@ func (s *Sched) DeadlockSig() string {
 // AwaitQuiescence blocks the calling (environment) thread until or() holds or every OTHER non-daemon thread is finished or
 // blocked. The caller is not enabled while anything else can run, so it adds no alternatives to the exploration.
 //go:norace
-func AwaitQuiescence(or func() bool) {
+func AwaitQuiescence(or func() bool) { awaitQuiescence("await-quiescence", or) }
+
+// AwaitQuiescenceWeak is the same wait for a thread that is PART of the program's work (a slow component start, a held
+// backend): other quiescence waiters count as blocked for it, while for an ordinary (strong) waiter - an oracle asking
+// "is nothing left to do?" - a weak waiter counts as runnable. A weak waiter therefore goes first.
+//go:norace
+func AwaitQuiescenceWeak(or func() bool) { awaitQuiescence("await-quiescence-weak", or) }
+
+//go:norace
+func awaitQuiescence(opName string, or func() bool) {
 	if !S.Active {
 		return
 	}
@@ -674,7 +683,7 @@ func AwaitQuiescence(or func() bool) {
 	}
 	me := S.cur
 	evaluating := false
-	blockOp("await-quiescence", func() bool {
+	blockOp(opName, func() bool {
 		if or != nil && or() {
 			return true
 		}
@@ -684,8 +693,14 @@ func AwaitQuiescence(or func() bool) {
 		evaluating = true
 		defer func() { evaluating = false }()
 		for _, t := range S.threads {
-			if t == me || t.done || t.daemon {
-				continue
+			if t == me || t.done || (t.daemon && opName != "await-quiescence-weak") {
+				continue // (a weak waiter also waits for the environment threads to have had their turn)
+			}
+			if t.ready != nil && opName == "await-quiescence-weak" && (t.op == "await-quiescence" || t.op == "await-quiescence-weak") {
+				continue // a weak waiter is not kept waiting by other quiescence waiters
+			}
+			if t.ready != nil && opName == "await-quiescence" && t.op == "await-quiescence-weak" {
+				return false // a weak waiter can run as soon as this thread waits: not quiescent
 			}
 			if t.ready == nil || t.ready() {
 				return false
